@@ -372,8 +372,16 @@ fn base_messages(rng: &mut Rng, tier: Tier, obs: &mut Obs) -> Vec<Vec<u8>> {
                 out.push(b);
             }
             6..=8 => {
+                // data messages too come from the foreign peer: reserved
+                // header bits and odd version nibbles set in most of them
                 let m = gen_data(rng, &sw);
-                out.push(spec_encode(&m));
+                let tape = gen_knobs(rng, 4);
+                let mut k = Knobs::new(&tape);
+                let b = spec_encode_with(&m, &mut k, Opts::from_index(0));
+                if k.fired > 0 {
+                    obs.count("probe:foreign-noncanonical-base");
+                }
+                out.push(b);
             }
             _ => out.push(fragment(rng)),
         }
